@@ -712,6 +712,23 @@ func check(id, tier string) int {
 			}
 		}
 		if !ok {
+			// Code under test that is nondeterministic may break the SAME property
+			// in another way on each execution of the tape (two encodings of one map
+			// differ on one execution, are equal but unsorted on the next).  Any
+			// violation of this property that is not a listed finding, seen again
+			// in a fresh process from the same tape, is a real execution judged by
+			// the same oracle: the replay file then names that one.
+			for attempt := 0; !ok && attempt < 4; attempt++ {
+				if sig, detail, seen := replayAnyViolation(bin, path, knownPath, workerEnv); seen {
+					fmt.Fprintf(os.Stderr, "verif: the tape of %s breaks the property differently from one fresh process to the next (now %s): the code under test is not deterministic on this input\n", agg.violation.Signature, sig)
+					agg.violation.Signature, agg.violation.Detail = sig, detail
+					b, _ := json.MarshalIndent(agg.violation, "", " ")
+					os.WriteFile(path, b, 0o644)
+					ok = true
+				}
+			}
+		}
+		if !ok {
 			os.RemoveAll(dir)
 			fmt.Fprintf(os.Stderr, "verif: violation %s in run %d did not reproduce from its tape in a fresh process: harness determinism bug, no verdict\n", agg.violation.Signature, agg.violation.Run)
 			os.Exit(2)
@@ -920,6 +937,32 @@ func minimiseAndConfirm(bin, dir string, v *replayFile, knownPath string, noMin 
 	}
 	fmt.Fprintf(os.Stderr, "verif: replay output:\n%s\n", out)
 	return final, false
+}
+
+// replayAnyViolation replays a tape in a fresh process and reports the
+// violation it met, whatever its signature (known findings excluded by the
+// worker).
+func replayAnyViolation(bin, file, knownPath string, env []string) (string, string, bool) {
+	cmd := exec.Command(bin, "replay", "-file", file, "-known", knownPath)
+	cmd.Env = append(os.Environ(), env...)
+	out, err := cmd.CombinedOutput()
+	var ee *exec.ExitError
+	if !errors.As(err, &ee) || (ee.ExitCode() != 1 && ee.ExitCode() != 4) {
+		return "", "", false
+	}
+	const mark = "\n  violation: "
+	i := strings.Index(string(out), mark)
+	if i < 0 {
+		return "", "", false
+	}
+	rest := string(out)[i+len(mark):]
+	sig, detail, _ := strings.Cut(rest, "\n")
+	for _, end := range []string{"\nREPRODUCED", "\nDIFFERENT-VIOLATION"} {
+		if j := strings.Index(detail, end); j >= 0 {
+			detail = detail[:j]
+		}
+	}
+	return strings.TrimSpace(sig), strings.TrimSpace(strings.ReplaceAll(detail, "\n  ", "\n")), sig != ""
 }
 
 func replay(path string) int {
